@@ -13,7 +13,7 @@
 (*   planner_simple_label_filter.go  label filters before the first parser stage are evaluated on             *)
 (*                             time_series.labels and removed from the row pipeline                            *)
 (*   planner_main_init.go      PREWHERE timestamp_ns >= from AND timestamp_ns < to AND type IN (..)            *)
-(*   planner_line_filter.go    like / notLike / match(..) == 1                                                 *)
+(*   planner_line_filter.go    like / notLike / match(..) == 1 / match(..) == 0                                *)
 (*   planner_labels_joiner.go  ANY LEFT JOIN of the stream labels at the first stage that needs them, else at  *)
 (*                             the end                                                                         *)
 (*   planner_parser_json.go, planner_parser_regexp.go, planner_drop.go, planner_label_filter.go  map functions *)
@@ -70,10 +70,10 @@ FpSel(ms, db) ==
 IsParser(st) == st.k \in {"json", "jsonp", "regexp"}
 RECURSIVE FirstFrom(_, _, _)
 FirstFrom(p, i, K) == IF i > Len(p) THEN 0 ELSE IF p[i].k \in K THEN i ELSE FirstFrom(p, i + 1, K)
-(* simpleLabelOperation[i]: a label filter with no parser stage before it                                       *)
-Simple(p, i) == p[i].k = "lbl" /\ \A j \in 1..(i - 1) : ~IsParser(p[j])
-(* labelsJoinIdx: first parser, non-simple label filter, line_format or drop                                    *)
-LabelsJoinIdx(p) == FirstFrom(p, 1, {"json", "jsonp", "regexp", "drop", "dropv"})
+(* simpleLabelOperation[i]: a label filter with no parser and no drop stage before it                           *)
+Simple(p, i) == p[i].k = "lbl" /\ \A j \in 1..(i - 1) : ~IsParser(p[j]) /\ p[j].k \notin {"drop", "dropv"}
+(* labelsJoinIdx: first parser, non-simple label filter, line_format, drop or unwrap                            *)
+LabelsJoinIdx(p) == FirstFrom(p, 1, {"json", "jsonp", "regexp", "drop", "dropv", "unwrap"})
 (* planner.go GetBreakpoint: first `json` without parameters (logfmt, line_format are outside the grammar)      *)
 BreakIdx(p) == FirstFrom(p, 1, {"json"})
 CHPipe(p) == IF BreakIdx(p) = 0 THEN p ELSE SubSeq(p, 1, BreakIdx(p) - 1)
@@ -109,8 +109,7 @@ SqlLineHolds(st, e) ==
     CASE st.op = "|=" -> st.arg \in e.feats                                   \* like(string, '%..%') == 1
       [] st.op = "!=" -> st.arg \notin e.feats                                \* notLike(..) == 1
       [] st.op = "|~" -> LineReMatches(st.arg, e.feats)                       \* like or match(..) == 1
-      [] st.op = "!~" -> IF IsLiteralRe(st.arg) THEN ~LineReMatches(st.arg, e.feats)    \* notLike(..) == 1
-                         ELSE LineReMatches(st.arg, e.feats)                  \* match(..) == 1  (as coded)
+      [] st.op = "!~" -> ~LineReMatches(st.arg, e.feats)                      \* notLike(..) == 1 or match(..) == 0
 
 (*------------------------------------ planner_labels_joiner.go ---------------------------------------------*)
 JoinLabels(s, db) == IF \E r \in TimeSeries(db) : TypeIn(r.type) /\ r.fp = s THEN StreamLbls(s) ELSE NoLabels
@@ -119,15 +118,9 @@ JoinLabels(s, db) == IF \E r \in TimeSeries(db) : TypeIn(r.type) /\ r.fp = s THE
 JoinLabels2(fp, db) == IF \E r \in TimeSeries(db) : TypeIn(r.type) /\ StreamLbls(r.fp) = fp THEN fp ELSE NoLabels
 
 (*------------------------------------ planner_parser_json.go -----------------------------------------------*)
-(* if(JSONType(string, p1,..,pk AS jp) == 'String', JSONExtractString(string, jp), JSONExtractRaw(string, jp)): *)
-(* the alias names only the LAST path element, so the extraction reads the top-level field called like the     *)
-(* last element while the type test looks at the whole path.  "raw:"v is the JSON text of the string v.         *)
-Raw(v) == IF v = "" THEN "" ELSE IF IsNum(v) THEN v ELSE "raw:" \o v
-JsonpMech(e, path) ==
-    IF e.fmt # "json" THEN ""
-    ELSE CASE path = "x"   -> e.fld.x
-           [] path = "n"   -> e.fld.n
-           [] path = "o.x" -> IF e.fld.ox # "" THEN e.fld.x ELSE Raw(e.fld.x)
+(* if(JSONType(string, p1,..,pk) == 'String', JSONExtractString(string, p1,..,pk), JSONExtractRaw(string,      *)
+(* p1,..,pk)): type test and extraction follow the same, whole path.                                            *)
+JsonpMech(e, path) == IF e.fmt # "json" THEN "" ELSE FieldAt(e, path)
 RECURSIVE MapUpdateParams(_, _, _, _)
 MapUpdateParams(lbls, params, i, e) ==
     IF i > Len(params) THEN lbls
@@ -145,7 +138,13 @@ SqlStageLabels(st, e, lbls) ==
 (* filter adds WHERE .. labels['x'] .., a drop / parser replaces the column "labels" by an expression with the *)
 (* alias "labels".  ClickHouse resolves the unqualified name labels in WHERE to that ALIAS, i.e. to the map     *)
 (* AFTER every label-changing stage of the block, including the ones written after the filter.                 *)
-RenewAfter(p, j) == j < Len(p) /\ IsParser(p[j]) /\ ~IsParser(p[j + 1])
+(* A non-simple label filter that is followed (anywhere) by a parser or a drop closes its block as well, so the *)
+(* filter is evaluated on the labels as they are where it is written.                                           *)
+RenewAfter(p, j) ==
+    /\ j < Len(p)
+    /\ \/ IsParser(p[j]) /\ ~IsParser(p[j + 1])
+       \/ /\ p[j].k = "lbl" /\ ~Simple(p, j)
+          /\ \E m \in (j + 1)..Len(p) : IsParser(p[m]) \/ p[m].k \in {"drop", "dropv"}
 RECURSIVE BlockFinal(_, _, _, _)
 BlockFinal(p, j, e, lbls) ==       \* labels at the end of the block, applying the label-changing stages j..
     IF j > Len(p) THEN lbls
@@ -161,7 +160,7 @@ SqlPipe(p, i, e, lbls, lj, db) ==
          IN  IF st.k = "lf"
              THEN IF SqlLineHolds(st, e) THEN SqlPipe(p, i + 1, e, lb, lj, db) ELSE [ok |-> FALSE, lbls |-> lb]
              ELSE IF st.k = "lbl"
-             THEN IF Simple(p, i) \/ TreeSql(st.tree, BlockFinal(p, i + 1, e, lb))
+             THEN IF Simple(p, i) \/ TreeSql(st.tree, IF RenewAfter(p, i) THEN lb ELSE BlockFinal(p, i + 1, e, lb))
                   THEN SqlPipe(p, i + 1, e, lb, lj, db)
                   ELSE [ok |-> FALSE, lbls |-> lb]
              ELSE SqlPipe(p, i + 1, e, SqlStageLabels(st, e, lb), lj, db)
@@ -199,13 +198,10 @@ ParsedPipe(p, i) ==
          ELSE <<p[i]>> \o ParsedPipe(p, i + 1)
 
 (*------------------------------------ the whole plan for a log query ---------------------------------------*)
-(* planner_line_filter.go doLike renders like(samples.string, ..): the alias samples exists in the first block  *)
-(* (FROM samples_v3 AS samples) and after a MainRenewPlanner (FROM subsel AS samples) but not in the block      *)
-(* LabelsJoinPlanner creates (FROM main JOIN _time_series): ClickHouse rejects the statement.                   *)
-UsesLike(st) == st.k = "lf" /\ (st.op \in {"|=", "!="} \/ IsLiteralRe(st.arg))
-SqlRejected(p) ==
-    LET lj == LabelsJoinIdx(p)
-    IN  lj # 0 /\ \E i \in (lj + 1)..Len(p) : UsesLike(p[i]) /\ ~\E j \in lj..(i - 1) : RenewAfter(p, j)
+(* planner_line_filter.go doLike renders like(string, ..) / match(string, ..): the column alias string exists   *)
+(* in every SELECT block (first block, MainRenewPlanner, LabelsJoinPlanner), no statement of the grammar is      *)
+(* rejected.                                                                                                     *)
+SqlRejected(p) == FALSE
 
 PlanRowP(pp, db, i) ==
     LET ch == CHPipe(pp)
@@ -220,10 +216,8 @@ PlanRows(q, db) ==
         main == {i \in DOMAIN db : db[i].t >= q.from /\ db[i].t < q.to /\ TypeIn(db[i].ty) /\ db[i].s \in fps}
         rows == {i \in main : PlanRowP(pp, db, i).ok}
         (* SQL LIMIT only when the whole script runs in ClickHouse (finalize); otherwise the Go LimitPlanner,   *)
-        (* which forwards rows while sent < limit (limit 0: none)                                               *)
-        sel  == IF BreakIdx(pp) = 0
-                THEN IF q.lim = 0 THEN rows ELSE FirstN(rows, db, q.fwd, q.lim)
-                ELSE FirstN(rows, db, q.fwd, q.lim)
+        (* which forwards rows while sent < limit; both read limit 0 as "no limit"                              *)
+        sel  == IF q.lim = 0 THEN rows ELSE FirstN(rows, db, q.fwd, q.lim)
     IN  {[id |-> i, lbls |-> PlanRowP(pp, db, i).lbls] : i \in sel}
 
 (* [err |-> the request fails, rows |-> the answer]                                                             *)
@@ -246,6 +240,7 @@ HasParser(p) == \E i \in DOMAIN p : IsParser(p[i])
 Shortcut(q, pp) ==
     /\ q.mq.fn \in {"rate", "count_over_time"}
     /\ q.mq.range * q.mq.unit >= 15
+    /\ (q.mq.range * q.mq.unit) % 15 = 0
     /\ ~HasUnwrap(pp)
     /\ \A i \in DOMAIN pp : ~IsParser(pp[i]) /\ pp[i].k \notin {"drop", "dropv", "lf"}
 
@@ -253,25 +248,22 @@ Shortcut(q, pp) ==
 FixFrom(q) == Bucket(q.from, q.mq.range)
 FixTo(q)   == Bucket(q.to, q.mq.range) + q.mq.range
 
-(* planner_unwrap.go: toFloat64OrZero(labels['x'])                                                              *)
+(* planner_unwrap.go: toFloat64OrZero(labels['x']) AS value ... WHERE toFloat64OrNull(labels['x']) IS NOT NULL *)
 UnwrapSql(lbls, name) == IF IsNum(lbls[name]) THEN NumVal[lbls[name]] ELSE 0
+UnwrapKeeps(pp, lbls) == HasUnwrap(pp) => IsNum(lbls[pp[Len(pp)].lbl])
 
 (* samples -> rows of the range function ------------------------------------------------------------------- *)
 MRow(pp, db, i) == SqlPipe(pp, 1, db[i], NoLabels, LabelsJoinIdx(pp), db)
 MainRows(q, db, pp) ==
     LET fps == ApplySimple(FpSel(q.m, db), pp, 1, db)
     IN  {i \in DOMAIN db : /\ db[i].t >= FixFrom(q) /\ db[i].t < FixTo(q) /\ TypeIn(db[i].ty) /\ db[i].s \in fps
-                           /\ MRow(pp, db, i).ok}
-(* fingerprint of a sample row: planner_parser.go recomputes it from the labels alias of the parser's SELECT     *)
-(* block (which MainRenewPlanner closes right after the parser); later stages (planner_drop.go) do not touch it  *)
-RECURSIVE LastParser(_, _)
-LastParser(p, i) == IF i = 0 THEN 0 ELSE IF IsParser(p[i]) THEN i ELSE LastParser(p, i - 1)
+                           /\ MRow(pp, db, i).ok /\ UnwrapKeeps(pp, MRow(pp, db, i).lbls)}
+(* fingerprint of a sample row: planner_parser.go and planner_drop.go recompute it from the labels alias of     *)
+(* their SELECT block; no later stage changes the labels without doing the same, so it identifies the labels at *)
+(* the end of the pipeline                                                                                      *)
+HasDrop(p) == \E i \in DOMAIN p : p[i].k \in {"drop", "dropv"}
 RowFp(pp, db, i) ==
-    IF HasParser(pp)
-    THEN LET k == LastParser(pp, Len(pp))
-             pre == SubSeq(pp, 1, IF k < Len(pp) /\ ~RenewAfter(pp, k) THEN Len(pp) ELSE k)
-         IN  SqlPipe(pre, 1, db[i], NoLabels, LabelsJoinIdx(pp), db).lbls
-    ELSE StreamLbls(db[i].s)
+    IF HasParser(pp) \/ HasDrop(pp) THEN MRow(pp, db, i).lbls ELSE StreamLbls(db[i].s)
 
 (* planner_lra.go / planner_unwrap_function.go (after planner_by_without.go processSimple for the function's    *)
 (* own by / without: fingerprint = cityHash64(labels) of the filtered map)                                      *)
@@ -289,7 +281,7 @@ LraValue(q, pp, db, E) ==
     IN  CASE fn = "rate"            -> [num |-> n, den |-> q.mq.range]                   \* toFloat64(COUNT()) / range
           [] fn = "count_over_time" -> [num |-> n, den |-> 1]
           [] fn = "bytes_rate"      -> [num |-> SumOver(E, ln), den |-> q.mq.range]
-          [] fn = "bytes_over_time" -> [num |-> SumOver(E, ln), den |-> q.mq.range]      \* as coded: also divided
+          [] fn = "bytes_over_time" -> [num |-> SumOver(E, ln), den |-> 1]
           [] fn = "sum_over_time"   -> [num |-> SumOver(E, uv), den |-> 1]
           [] fn = "avg_over_time"   -> [num |-> SumOver(E, uv), den |-> n]
           [] fn = "min_over_time"   -> [num |-> CHOOSE x \in {uv[i] : i \in E} : \A y \in {uv[i] : i \in E} : x <= y, den |-> 1]
@@ -307,11 +299,11 @@ LraRows(q, db, pp) ==
           lbls |-> IF hl THEN LraLbls(q, pp, db, CHOOSE i \in grp(k) : TRUE) ELSE NoLabels, hl |-> hl, opt |-> FALSE] : k \in keys}
 
 (* planner_metrics15s_shortcut.go over the rows the materialized view metrics_15s_mv derives; seconds = ticks * *)
-(* unit.  The label filters of the pipeline are not planned at all on this path (analyzeScript returns early).  *)
-ShortcutRows(q, db) ==
+(* unit.  The label filters of the pipeline (all of them simple on this path) restrict the fingerprints.       *)
+ShortcutRows(q, db, pp) ==
     LET u    == q.mq.unit
         R    == q.mq.range
-        fps  == FpSel(q.m, db)
+        fps  == ApplySimple(FpSel(q.m, db), pp, 1, db)
         b15(i) == ((db[i].t * u) \div 15) * 15
         lo   == ((FixFrom(q) * u) \div 15) * 15
         hi   == ((FixTo(q) * u) \div 15) * 15
@@ -325,17 +317,17 @@ ShortcutRows(q, db) ==
 (* planner_comparison.go: HAVING value <op> param                                                               *)
 Having(q, cmp, rows) == {r \in rows : CmpHolds(q, cmp, r.v)}
 
-(* planner_by_without.go + planner_agg_op.go                                                                    *)
+(* planner_by_without.go + planner_agg_op.go; an aggregation without grouping clause is planned as by ()         *)
 AggPlanRows(q, db, rows) ==
     IF q.mq.agg = "" THEN rows
-    ELSE LET newfp(r) == IF q.mq.grp = "" THEN r.fp
-                         ELSE IF r.hl THEN Group(q.mq.grp, q.mq.glbls, r.lbls)            \* processSimple
-                         ELSE Group(q.mq.grp, q.mq.glbls, JoinLabels2(r.fp, db))          \* processTSTable
+    ELSE LET grp   == IF q.mq.grp = "" THEN "by" ELSE q.mq.grp
+             glbls == IF q.mq.grp = "" THEN {} ELSE q.mq.glbls
+             newfp(r) == IF r.hl THEN Group(grp, glbls, r.lbls)                            \* processSimple
+                         ELSE Group(grp, glbls, JoinLabels2(r.fp, db))                     \* processTSTable
              keys == {<<newfp(r), r.ts>> : r \in rows}
              mem(k) == {r \in rows : newfp(r) = k[1] /\ r.ts = k[2]}
-             hl(k) == q.mq.grp # "" \/ (CHOOSE r \in mem(k) : TRUE).hl
          IN  {[fp |-> k[1], ts |-> k[2], v |-> AggValue(q.mq.agg, {[k |-> r.fp, v |-> r.v] : r \in mem(k)}),
-               lbls |-> IF q.mq.grp # "" THEN k[1] ELSE (CHOOSE r \in mem(k) : TRUE).lbls, hl |-> hl(k), opt |-> FALSE] : k \in keys}
+               lbls |-> k[1], hl |-> TRUE, opt |-> FALSE] : k \in keys}
 
 (* planner_topk.go: per timestamp arraySort by (-value, fingerprint, ..) and arraySlice(.., 1, k): equal values *)
 (* are ordered by the fingerprint hash, i.e. arbitrarily for the abstraction: opt                               *)
@@ -386,7 +378,7 @@ PlanMetric(q, db) ==
     LET pp == ParsedPipe(q.p, 1)
     IN  IF ~Shortcut(q, pp) /\ (SqlRejected(pp) \/ (HasUnwrap(pp) /\ LabelsJoinIdx(pp) = 0))
         THEN [err |-> TRUE, series |-> {}]              \* unknown identifier / "labels col not inited"
-        ELSE LET r0 == IF Shortcut(q, pp) THEN ShortcutRows(q, db) ELSE LraRows(q, db, pp)
+        ELSE LET r0 == IF Shortcut(q, pp) THEN ShortcutRows(q, db, pp) ELSE LraRows(q, db, pp)
                  r1 == Having(q, q.mq.cmpl, r0)
                  r2 == Having(q, q.mq.cmpa, AggPlanRows(q, db, r1))
                  r3 == TopPlanRows(q, r2)
